@@ -13,8 +13,8 @@ use std::ops::{Add, Div, Mul, Sub};
 #[derive(Clone, Debug)]
 pub enum Case {
     TreeTree { a: TSpec, b: TSpec, op: char, elim_a: bool },
-    TreeAff { a: TSpec, f: Aff, op: char },
-    Neg { a: TSpec },
+    TreeAff { a: TSpec, f: Aff, op: char, elim_a: bool },
+    Neg { a: TSpec, elim_a: bool },
 }
 
 fn r1(a: &[f64], b: f64) -> Aff {
@@ -53,12 +53,14 @@ pub fn cases(tier: Tier) -> Vec<Case> {
                     out.push(Case::TreeTree { a: a.clone(), b: b.clone(), op, elim_a: (i + j) % 4 == 0 });
                 }
             }
-            for f in gb.terms.iter() {
+            for (j, f) in gb.terms.iter().enumerate() {
                 for op in ['+', '-', '*', '/'] {
-                    out.push(Case::TreeAff { a: a.clone(), f: f.clone(), op });
+                    // every 2nd operand went through infeasible_elimination first: cached states and holes in the arena
+                    out.push(Case::TreeAff { a: a.clone(), f: f.clone(), op, elim_a: (i + j) % 2 == 0 });
                 }
             }
-            out.push(Case::Neg { a: a.clone() });
+            out.push(Case::Neg { a: a.clone(), elim_a: false });
+            out.push(Case::Neg { a: a.clone(), elim_a: true });
         }
     }
     out
@@ -199,9 +201,12 @@ pub fn run_case(c: &Case) -> CaseOut {
                 out.sample = Some(rec);
             }
         }
-        Case::TreeAff { a, f, op } => {
-            let rec = json!({"a": a.to_json(), "f": f.to_json(), "op": op.to_string()});
-            let ta: AffTree<2> = a.build_layout(if a.n_nodes() % 2 == 0 { 3 } else { 0 });
+        Case::TreeAff { a, f, op, elim_a } => {
+            let rec = json!({"a": a.to_json(), "f": f.to_json(), "op": op.to_string(), "a_eliminated_first": elim_a});
+            let mut ta: AffTree<2> = a.build_layout((a.n_nodes() % 5) as u8);
+            if *elim_a && catch(|| ta.infeasible_elimination()).is_err() {
+                return out;
+            }
             let sa = snap(&ta);
             let fr = if a.n_nodes() % 3 == 0 { f.to_real() } else { f.to_real_f() };
             let fm = f.to_map();
@@ -234,9 +239,12 @@ pub fn run_case(c: &Case) -> CaseOut {
                 }
             }
         }
-        Case::Neg { a } => {
-            let rec = json!({"a": a.to_json(), "op": "neg"});
-            let ta: AffTree<2> = a.build();
+        Case::Neg { a, elim_a } => {
+            let rec = json!({"a": a.to_json(), "op": "neg", "a_eliminated_first": elim_a});
+            let mut ta: AffTree<2> = a.build_layout((a.n_nodes() % 5) as u8);
+            if *elim_a && catch(|| ta.infeasible_elimination()).is_err() {
+                return out;
+            }
             let sa = snap(&ta);
             let sa_ref = sa.clone();
             let reference = FnSide(move |x: &[Q], g: &mut Vec<Form>| {
@@ -260,7 +268,7 @@ pub fn run(tier: Tier) -> Report {
     let total = par_cases(&cs, |_, c| run_case(c));
     rep.absorb(total);
     rep.set("bound", match tier {
-        Tier::Quick => "pairs of generator trees (depth <= 2, <= 5 nodes, total and partial, shared parallel predicates) for (in,out) dims (1,1),(2,1),(1,2),(2,2) x {+,-,*,/} x 4 ownership variants; tree-affine pairs x 4 operators x {a op f, a op &f, f op a, &f op a}; negation; every 4th left operand carries cached feasibility states",
+        Tier::Quick => "pairs of generator trees (depth <= 2, <= 5 nodes, total and partial, shared parallel predicates) for (in,out) dims (1,1),(2,1),(1,2),(2,2) x {+,-,*,/} x 4 ownership variants; tree-affine pairs x 4 operators x {a op f, a op &f, f op a, &f op a}; negation; every 4th left operand of a tree-tree pair, every 2nd of a tree-affine pair and every negated tree (once with, once without) went through infeasible_elimination first (cached states, holes in the arena)",
         Tier::Thorough => "same with <= 7 nodes and denser selection of larger trees",
     });
     rep.assume("divisor coefficients are non-zero dyadics so that quotients are exact; disagreements count only where the intersection of both operands' route regions is fat");
